@@ -1,5 +1,5 @@
 (* Extraction of the C08 Mech (implementation lookup / call protocol) next to Ref and the printer. *)
 From Coq Require Import Extraction ExtrOcamlBasic ExtrOcamlString ZArith.
-From Cb Require Import Lang.Syntax Lang.Sem Lang.Print C08.Frames.
+From Cb Require Import Lang.Syntax Lang.Sem Lang.Print C08.Frames C08.Kinds.
 Extraction Language OCaml.
-Extraction "C08/c08_model.ml" print_program run mech_run render Z.add Z.mul Z.opp Z.of_nat Z.of_N N.of_nat.
+Extraction "C08/c08_model.ml" print_program run mech_run render kref_run kmech_run Z.add Z.mul Z.opp Z.of_nat Z.of_N N.of_nat.
